@@ -230,3 +230,27 @@ def check_jsonable(x, path="$"):
             check_jsonable(y, f"{path}.{k}")
         return
     raise MachineryError(f"value not representable for TLC at {path}: {type(x).__name__} {x!r}")
+
+
+def apalache_inductive(module: str, cinit: str, init: str, ind_init: str, inv: str, timeout: int = 900) -> dict:
+    """Discharge an inductive invariant with Apalache (symbolic constants): Init => Inv (length 0) and
+    IndInit /\\ Next => Inv' (length 1).  Returns timings; a counterexample or a tool failure is a machinery error (the
+    invariant is a statement about the specification, not about the code)."""
+    import shutil
+    import tempfile
+    import time
+    out = {}
+    for name, args in (("base", [f"--init={init}", "--length=0"]), ("step", [f"--init={ind_init}", "--length=1"])):
+        d = tempfile.mkdtemp(prefix="apa_")
+        t0 = time.time()
+        try:
+            p = subprocess.run(["apalache-mc", "check", f"--cinit={cinit}", f"--inv={inv}", f"--out-dir={d}", *args, module + ".tla"],
+                               cwd=SPEC_DIR, capture_output=True, text=True, timeout=timeout)
+        except (subprocess.TimeoutExpired, FileNotFoundError) as ex:
+            raise MachineryError(f"apalache {name} case of {module}!{inv}: {ex}") from ex
+        finally:
+            shutil.rmtree(d, ignore_errors=True)
+        if "EXITCODE: OK" not in p.stdout:
+            raise MachineryError(f"apalache did not discharge the {name} case of {module}!{inv}:\n" + p.stdout[-1500:])
+        out[name + "_s"] = round(time.time() - t0, 1)
+    return out
